@@ -64,7 +64,9 @@ def report(ses, results, what, prop_violation_text, replay_recipe=None):
         if r['status'] == 'SUCCESSFUL': continue
         unwinding = any('unwinding assertion' in f or 'unwinding value' in f for f in r['failed_checks']) or 'unwinding value' in r['log_tail']
         unsupported = 'not currently supported by Kani' in r['log_tail'] or any('not currently supported' in f for f in r['failed_checks'])
-        if r['status'] == 'FAILED' and not unwinding and not unsupported:
+        # a definite failed check next to an "unsupported construct reachable" failure is still a trace CBMC found; it is reported only through a native replay recipe
+        real = [f for f in r['failed_checks'] if 'not currently supported' not in f and 'unwinding' not in f]
+        if r['status'] == 'FAILED' and ((not unwinding and not unsupported) or (real and replay_recipe is not None and not unwinding)):
             v = {'what': '%s (Kani harness %s: %s)' % (prop_violation_text, r['harness'], '; '.join(r['failed_checks'])[:300]), 'detail': {'log_tail': r['log_tail'][-800:]},
                  'replay': replay_recipe or {'kani_confirmed': True, 'harness': r['harness']}, 'key': None}
             ses.violations.append(v)
@@ -220,13 +222,16 @@ k4!(k4_key1_len3, 1, 3);
 '''
 
 
-def job_key_hex(ses):
+def job_key_hex(ses, fast=False):
     hs = ['core::verif_harness::k4_key2_len0', 'core::verif_harness::k4_key2_len2', 'core::verif_harness::k4_key2_len4', 'core::verif_harness::k4_key2_len6', 'core::verif_harness::k4_key1_len3']
+    if fast: hs = [h for h in hs if not h.endswith(('len4', 'len6'))]      # the two long strings take ~200 s each: thorough tier only
     res = run_kani(K4, 'src/core/mod.rs', hs, timeout=900, support=True)
-    report(ses, res, 'Key::<N>::try_from(&str) with the real hex crate never panics: N in {1,2}, every ASCII string of 0-6 bytes', 'Key::try_from(&str) panics on a hex string',
-           replay_recipe={'steps': [{'op': 'key_hex', 'size': 32, 'hex': h, 'out': 'R%d' % i} for i, h in enumerate(['', '00', '0000', 'zz', '0' * 62, '0' * 66])],
-                          'violated_if': [[{'var': 'R%d' % i, 'is': 'panic'}] for i in range(6)]})
-    ses.bounds['kani k4_key_hex'] = 'Key<1>, Key<2>; ASCII strings of length 0,2,3,4,6'
+    # native confirmation: hex strings of every length 0..=2N+3 for the key sizes of the crate (a decoder that miscounts does so at a particular length)
+    sizes = (24, 32, 48, 49, 64); cases = [(n, c * L) for n in sizes for L in list(range(0, 8)) + list(range(2 * n - 3, 2 * n + 4)) for c in ('0', 'f', 'z')]
+    report(ses, res, 'Key::<N>::try_from(&str) with the real hex crate never panics: N in {1,2}, every ASCII string of %s bytes' % ('0, 2, 3' if fast else '0-6'), 'Key::try_from(&str) panics on a hex string',
+           replay_recipe={'steps': [{'op': 'key_hex', 'size': n, 'hex': h, 'out': 'R%d' % i} for i, (n, h) in enumerate(cases)],
+                          'violated_if': [[{'var': 'R%d' % i, 'is': 'panic'}] for i in range(len(cases))]})
+    ses.bounds['kani k4_key_hex'] = 'Key<1>, Key<2>; ASCII strings of length %s' % ('0,2,3 (quick)' if fast else '0,2,3,4,6')
 
 
 # ----------------------------------------------------------------------------- K3: Footer::constant_time_equals == (base64url(footer) == segment), bit-precise on the compiled code
